@@ -209,27 +209,51 @@ theorem invB_sound (s : St) (h : invB s = true) : Inv s := by
 
 /-! ### slide part numbering (`rename_slide_parts`, `_next_slide_partname`) -/
 
-theorem numbersAfter_eq (n k j : Nat) : numbersAfter n k j = List.range' 1 (n + k + j) := by
-  induction j with
-  | zero => rfl
-  | succ j ih =>
-    simp only [numbersAfter, ih, nextSlideNumber]
-    rw [show n + k + (j + 1) = (n + k + j) + 1 by omega, List.range'_concat]
-    simp; omega
+theorem addSlide_eq (n k : Nat) :
+    addSlide { listed := List.range' 1 n, unlisted := List.range' (n + 1) k } =
+      { listed := List.range' 1 (n + 1), unlisted := List.range' (n + 2) k } := by
+  unfold addSlide
+  by_cases hk : k = 0
+  · subst hk
+    simp [nextSlideNumber, List.range'_concat]; omega
+  · simp [hk, nextSlideNumber, renameSlides, List.range'_concat]; omega
 
-/-- **No two slide parts ever share a name**: after the renaming and any number of added slides the numbers in use are
-    pairwise distinct, and the number the next new slide gets is not in use — also when the package holds slide parts
-    that are not in the slide-id list -/
+theorem numbersAfter_eq (n k j : Nat) :
+    numbersAfter n k j = { listed := List.range' 1 (n + j), unlisted := List.range' (n + j + 1) k } := by
+  induction j with
+  | zero => simp [numbersAfter, renamedNumbers, renameSlides]
+  | succ j ih =>
+    simp only [numbersAfter, ih]
+    rw [addSlide_eq]
+    rfl
+
+/-- **Slide parts are named slide1..n in presentation order and no two slide parts ever share a name**: after the
+    renaming at the first access to the slide collection and any number of added slides, the listed slide parts hold
+    exactly 1..n+j in list order, all numbers in use (listed and unlisted) are pairwise distinct, and the number the next
+    new slide gets is taken by no listed part and - once `add_slide` has moved the unlisted parts up - by no part at
+    all; this also when the package holds slide parts that are not in the slide-id list -/
 theorem slide_numbers_nodup (n k j : Nat) :
-    (numbersAfter n k j).Nodup ∧ nextSlideNumber n k j ∉ numbersAfter n k j := by
-  rw [numbersAfter_eq]
-  refine ⟨List.nodup_range', ?_⟩
-  simp only [List.mem_range'_1, nextSlideNumber]
-  omega
+    (numbersAfter n k j).listed = List.range' 1 (n + j) ∧
+    ((numbersAfter n k j).listed ++ (numbersAfter n k j).unlisted).Nodup ∧
+    nextSlideNumber (numbersAfter n k j) ∉ (numbersAfter n k j).listed ∧
+    nextSlideNumber (numbersAfter n k j) ∉
+      (numbersAfter n k (j + 1)).listed.dropLast ++ (numbersAfter n k (j + 1)).unlisted := by
+  rw [numbersAfter_eq, numbersAfter_eq]
+  refine ⟨rfl, ?_, ?_, ?_⟩
+  · have : List.range' 1 (n + j) ++ List.range' (n + j + 1) k = List.range' 1 (n + j + k) := by
+      rw [show n + j + 1 = 1 + (n + j) by omega, List.range'_append_1]
+    rw [this]; exact List.nodup_range'
+  · simp only [nextSlideNumber, List.length_range', List.mem_range'_1]; omega
+  · simp only [nextSlideNumber, List.length_range']
+    rw [show n + (j + 1) = (n + j) + 1 by omega, List.range'_concat, List.dropLast_concat]
+    simp only [List.mem_append, List.mem_range'_1]
+    omega
 
 /-- before the `fix:` the unlisted parts kept their old numbers and the next slide got `n + j + 1`: with one unlisted
     part numbered 3 in a deck of two listed slides the new slide collides with it -/
 example : (2 + 0 + 1 : Nat) ∈ [1, 2, 3] := by decide
+
+example : numbersAfter 2 1 2 = { listed := [1, 2, 3, 4], unlisted := [5] } := by decide
 
 /-- non-vacuity and the classic way to break closure: a relationship dropped while its id is still
     referenced is NOT a well-formed step -/
